@@ -1,4 +1,5 @@
 //! vh_core — properties about pure functions of dicom-core (and ul::address).
+mod c11;
 mod c14;
 mod c17;
 mod c36;
@@ -7,6 +8,7 @@ use vhc::*;
 fn main() {
     run_main(
         |prop, ctx| match prop {
+            "C11" => Some(c11::cases(ctx)),
             "C14" => Some(c14::cases(ctx)),
             "C17" => Some(c17::cases(ctx)),
             "C36" => Some(c36::cases(ctx)),
